@@ -590,6 +590,7 @@ pub fn gen_and_run(seed: u64, index: u64, scratch: &str, cfg: &GenCfg, fenced: &
         root_name,
         layout,
         annotate: rng.chance(1, 2),
+        session: rng.chance(1, 3),
         history: vec![],
         relations: vec![],
         expect: None,
@@ -919,6 +920,7 @@ pub fn enumerate_faults(seed: u64, index: u64, scratch: &str, fenced: &BTreeSet<
         root_name: "proj".into(),
         layout: Layout::default(),
         annotate: rng.chance(1, 2),
+        session: false,
         history: vec![Op::Project { files: files.clone(), bystanders, outside: vec![], faulty: None, faulty2: None, note: "enumeration".into() }],
         relations: vec![],
         expect: None,
@@ -1099,6 +1101,9 @@ pub fn minimise(sc: &C13Scenario, class: &str, scratch: &str, budget: &mut usize
         attempt(c, &mut best, budget);
         let mut c = best.clone();
         c.layout.links.clear();
+        attempt(c, &mut best, budget);
+        let mut c = best.clone();
+        c.session = false;
         attempt(c, &mut best, budget);
         let mut c = best.clone();
         c.root_name = "proj".into();
@@ -1363,6 +1368,7 @@ pub fn run_check(tier_name: &str, seed: u64, verif_dir: &str) -> i32 {
             "faulty_edit_on_already_invalid_project_skipped": stats.fault_not_faulty,
             "relation_checks": stats.relation_checks,
             "relation_skipped": stats.relation_skipped,
+            "sessions_started": stats.sessions_started, "steps_run_in_an_already_used_process": stats.steps_in_running_session,
             "cli_runs": stats.cli_runs, "cli_runs_with_unwritable_stderr": stats.cli_bad_stderr, "cli_skipped": stats.cli_skipped,
             "reference_runs": stats.reference_runs, "reference_panics": stats.reference_panics,
             "distinct_trees": stats.trees.len(),
